@@ -92,6 +92,8 @@ pub fn check_model(
             Err(e) => fail!("oracle-walk", "{} state {}: independent walk failed: {}", what, state, e),
         };
         *questions_passed += walk.path.len();
+        rep.metric("longest_walk_questions", walk.path.len() as f64);
+        rep.class_if(walk.path.len() >= 32, "walk>=32-questions");
         note_walk(what, ti, pdf_idx, &walk.path);
         let want = match file.pdf_at(ti, pdf_idx) {
             Ok(p) => p,
